@@ -144,6 +144,36 @@ def make_pure(spec):
                 t += d * d
             return t * s + off
 
+    elif kind == "infwall":
+        # death penalty: infinitely bad (never NaN) on a slab of the box, a sphere elsewhere
+        cut = float(spec["inf_below"])
+
+        def f(xs):
+            if xs[0] < cut:
+                return math.inf
+            t = 0.0
+            for xi, ci in zip(xs, c):
+                d = xi - ci
+                t += d * d
+            return t * s + off
+
+    elif kind == "infpocket":
+        # infinitely GOOD inside a small ball (log-barrier style objective), a sphere elsewhere
+        pc = [float(v) for v in spec["pocket"]]
+        pr2 = float(spec["pocket_r"]) ** 2
+
+        def f(xs):
+            t = 0.0
+            q = 0.0
+            for xi, ci, pi in zip(xs, c, pc):
+                d = xi - ci
+                t += d * d
+                e = xi - pi
+                q += e * e
+            if q <= pr2:
+                return -math.inf
+            return t * s + off
+
     elif kind == "clipint":
         # a reward clipped with an *integer* constant: returns a Python int where it is clipped, floats elsewhere
         cap = int(spec.get("cap", 50))
@@ -198,6 +228,10 @@ def known_optimum_value(spec):
     off = float(spec.get("offset", 0.0))
     sign = float(spec.get("sign", 1.0))
     if kind in ("sphere", "ellipsoid", "rastrigin", "rosenbrock", "stair", "discont", "abszero", "constant"):
+        return sign * off
+    if kind == "infpocket":
+        return sign * (-math.inf)
+    if kind == "infwall":
         return sign * off
     if kind == "funnel":
         return sign * (min(spec["depths"]) * float(spec.get("scale", 1.0)) + off)
